@@ -643,6 +643,87 @@ def implicit_size_checks():
     return viol, n
 
 
+def large_scaled_checks():
+    """Sizes and scalings beyond the exact model (C10: 'all sizes ... all well-conditioned parameter values'):
+    well-conditioned matrices of size 40 whose determinant lies far outside the double range (entries of order
+    1e-18 and 1e18).  log|det|, products and solves are compared with dense NumPy algebra.  Numerical (1e-8), not
+    decided by the specification."""
+    import mici.matrices as M
+
+    viol, n = [], 0
+    size = 40
+    rng = np.random.default_rng(4)
+    g = rng.standard_normal((size, size))
+    sym = np.eye(size) + 0.2 * (g + g.T) / np.sqrt(size)          # well conditioned (cond < 10)
+    q, _ = np.linalg.qr(rng.standard_normal((size, size)))
+    u = rng.standard_normal((size, 2)) / np.sqrt(size)
+    for scale in (1e-18, 1.0, 1e18):
+        a = scale * sym
+        chol = np.linalg.cholesky(a)
+        gen = scale * (np.eye(size) + 0.3 * g / np.sqrt(size))
+        ev = scale * np.linspace(0.5, 2.0, size)
+        cases = {
+            "TriangularMatrix(lower)": (lambda: M.TriangularMatrix(chol.copy(), lower=True), chol),
+            "TriangularMatrix(upper)": (lambda: M.TriangularMatrix(chol.T.copy(), lower=False), chol.T),
+            "InverseTriangularMatrix": (lambda: M.InverseTriangularMatrix(chol.copy(), lower=True), np.linalg.inv(chol)),
+            "TriangularFactoredPositiveDefiniteMatrix": (lambda: M.TriangularFactoredPositiveDefiniteMatrix(chol.copy(), factor_is_lower=True), a),
+            "TriangularFactoredDefiniteMatrix(sign=-1)": (lambda: M.TriangularFactoredDefiniteMatrix(chol.copy(), sign=-1, factor_is_lower=True), -a),
+            "DensePositiveDefiniteMatrix": (lambda: M.DensePositiveDefiniteMatrix(a.copy()), a),
+            "DenseDefiniteMatrix(negative)": (lambda: M.DenseDefiniteMatrix(-a, is_posdef=False), -a),
+            "DenseSymmetricMatrix": (lambda: M.DenseSymmetricMatrix(a.copy()), a),
+            "DenseSquareMatrix": (lambda: M.DenseSquareMatrix(gen.copy()), gen),
+            "EigendecomposedPositiveDefiniteMatrix": (lambda: M.EigendecomposedPositiveDefiniteMatrix(q.copy(), ev.copy()), q @ np.diag(ev) @ q.T),
+            "PositiveDiagonalMatrix": (lambda: M.PositiveDiagonalMatrix(ev.copy()), np.diag(ev)),
+            "PositiveScaledIdentityMatrix": (lambda: M.PositiveScaledIdentityMatrix(scale, size), scale * np.eye(size)),
+            "ScaledOrthogonalMatrix": (lambda: M.ScaledOrthogonalMatrix(scale, q.copy()), scale * q),
+            "PositiveDefiniteLowRankUpdateMatrix": (
+                lambda: M.PositiveDefiniteLowRankUpdateMatrix(M.DenseRectangularMatrix(np.sqrt(scale) * u), M.DensePositiveDefiniteMatrix(a.copy()),
+                                                              M.DensePositiveDefiniteMatrix(np.array([[1.5, 0.2], [0.2, 0.7]]))),
+                a + scale * u @ np.array([[1.5, 0.2], [0.2, 0.7]]) @ u.T),
+            "PositiveDefiniteBlockDiagonalMatrix": (
+                lambda: M.PositiveDefiniteBlockDiagonalMatrix((M.DensePositiveDefiniteMatrix(a.copy()), M.PositiveDiagonalMatrix(ev.copy()))),
+                np.block([[a, np.zeros((size, size))], [np.zeros((size, size)), np.diag(ev)]])),
+        }
+        for label, (mk, dense) in cases.items():
+            k = dense.shape[0]
+            v = np.linspace(-1.0, 1.0, k)
+            want_ld = float(np.linalg.slogdet(dense)[1])
+            derived = {"": lambda o: (o, dense, want_ld),
+                       ".inv": lambda o: (o.inv, np.linalg.inv(dense), -want_ld),
+                       ".T": lambda o: (o.T, dense.T, want_ld),
+                       "*(-2)": lambda o: (-2.0 * o, -2.0 * dense, want_ld + k * np.log(2.0)),
+                       ".sqrt": lambda o: (o.sqrt, None, 0.5 * want_ld)}
+            for dlabel, der in derived.items():
+                rp = {"engine": "matrices-large", "case": label, "derived": dlabel, "scale": scale}
+                try:
+                    base = mk()
+                    if dlabel == ".sqrt" and not isinstance(base, M.PositiveDefiniteMatrix):
+                        continue
+                    obj, dn, ld = der(base)
+                except Exception as e:  # noqa: BLE001
+                    viol.append(("C10", f"C10:large:{label}{dlabel}:exception:{type(e).__name__}", f"{label}{dlabel} (size {k}, scale {scale:g}): {e!r}", rp))
+                    continue
+                n += 1
+                try:
+                    got = float(obj.log_abs_det)
+                    if not (np.isfinite(got) and abs(got - ld) <= 1e-8 * max(1.0, abs(ld))):
+                        viol.append(("C10", f"C10:large:{label}{dlabel}:log_abs_det",
+                                     f"{label}{dlabel} (size {k}, entries of order {scale:g}, condition number < 10): log_abs_det is {got}, "
+                                     f"dense slogdet gives {ld}", rp))
+                except AttributeError:
+                    pass
+                except Exception as e:  # noqa: BLE001
+                    viol.append(("C10", f"C10:large:{label}{dlabel}:log_abs_det:exception:{type(e).__name__}", f"{label}{dlabel}: log_abs_det raised {e!r}", rp))
+                if dn is not None:
+                    try:
+                        mv = obj @ v
+                        if not np.allclose(mv, dn @ v, rtol=1e-8, atol=1e-8 * float(np.max(np.abs(dn @ v)))):
+                            viol.append(("C10", f"C10:large:{label}{dlabel}:matvec", f"{label}{dlabel} (size {k}, scale {scale:g}): product differs from the dense product", rp))
+                    except Exception as e:  # noqa: BLE001
+                        viol.append(("C10", f"C10:large:{label}{dlabel}:matvec:exception:{type(e).__name__}", f"{label}{dlabel}: product raised {e!r}", rp))
+    return viol, n
+
+
 def softabs_checks():
     """SoftAbs-regularised matrices have no rational semantics: bound through algebraic identities."""
     import mici.matrices as M
